@@ -94,21 +94,24 @@ class ExprBuilder:
             raise AnalysisError("expression too large in %s" % self.body.fn.path)
         d = wd[0]
         if d[0] == "call":
-            t = d[2]
-            c = callee_of(t)
-            name = (c.get("rfn") or c["fn"]) if c else "<indirect>"
-            args = tuple(self.operand(a) for a in t["args"])
-            node = ("call", name, args, d[1])
-            if name.endswith("box_assume_init_into_vec_unsafe") and t["args"]:
-                lit = self.vec_literal(t["args"][0])
-                if lit is not None:
-                    node = lit
-            if c is None:
-                node = ("call", "<indirect>", (self.operand(t["f"]),) + args, d[1])
+            node = self.call_node(d[2], d[1])
         else:
             node = self.rvalue(d[3]["rv"])
         self.active.discard(l)
         self.memo[l] = node
+        return node
+
+    def call_node(self, t, bb):
+        c = callee_of(t)
+        name = (c.get("rfn") or c["fn"]) if c else "<indirect>"
+        args = tuple(self.operand(a) for a in t["args"])
+        node = ("call", name, args, bb)
+        if name.endswith("box_assume_init_into_vec_unsafe") and t["args"]:
+            lit = self.vec_literal(t["args"][0])
+            if lit is not None:
+                node = lit
+        if c is None:
+            node = ("call", "<indirect>", (self.operand(t["f"]),) + args, bb)
         return node
 
     def vec_literal(self, boxop):
